@@ -161,9 +161,27 @@ def make_chain(case, grad_given=True, posterior=None):
         bounds = (fl(lo), fl(hi))
         if not ((start >= bounds[0]) & (start <= bounds[1])).all():
             start = 0.5 * (bounds[0] + bounds[1])
+    # history dimension: for per-parameter masses whose square roots are exact, half of the chains are
+    # built with the DEFAULT mass and receive the intended one afterwards through the public
+    # estimate_mass() (a two-point history +-sqrt(inv_mass) has exactly that variance) -- everything
+    # the trajectory uses must follow the mass that is current, not the one of construction time
+    via_estimate = False
+    if kind in ("scalar", "vector"):
+        want = np.broadcast_to(np.asarray(inv_mass, dtype=float), (d,)).copy()
+        root = np.sqrt(want)
+        key = sum(int(v * 64) for v in want) + d + int(float(case["eps"]) * 1024)
+        if (root * root == want).all() and key % 2 == 0:
+            via_estimate = True
     chain = HC()(posterior=posterior or logp, start=start, grad=grad if grad_given else None,
                  epsilon=float(case["eps"]), temperature=float(case["T"]), bounds=bounds,
-                 inverse_mass=inv_mass, display_progress=False)
+                 inverse_mass=None if via_estimate else inv_mass, display_progress=False)
+    if via_estimate:
+        saved = (chain.theta, chain.probs, chain.leapfrog_steps, chain.chain_length)
+        chain.theta = [root.copy(), -root]
+        chain.estimate_mass(burn=0, thin=1, diagonal=True)
+        chain.theta, chain.probs, chain.leapfrog_steps, chain.chain_length = saved
+        got = np.asarray(chain.mass.inv_mass, dtype=float)
+        assert got.shape == want.shape and (got == want).all(), (got, want)
     chain.ES.epsilon = float(case["eps"])
     return chain, logp, grad
 
@@ -673,6 +691,94 @@ def chunked(lst, n):
         yield i // n, lst[i:i + n]
 
 
+# ---------------------------------------------------------------- finite_diff inside a bounds box
+HEADER_B = """From Coq Require Import List QArith ZArith.
+From IT Require Import Model.Leapfrog Model.FiniteDiffBounded.
+Import ListNotations.
+Open Scope Q_scope.
+"""
+
+
+def bounded_fd_part(rep, r, n_cases):
+    """finite_diff with bounds (D29): points on / near the wall the relative step points at, so that
+    the inward-turned step is exercised; compared exactly with Model/FiniteDiffBounded.v (scripted
+    table posterior) and, as the property oracle, with the table's own difference quotient."""
+    texts, metas = [], []
+    for k in range(n_cases):
+        d = r.choice([1, 2, 3])
+        lo, hi, t = [], [], []
+        for _ in range(d):
+            w = Fraction(r.choice([1, 2, 8, 64]), r.choice([1, 4]))
+            c = Fraction(r.randint(-96, 96), 8)
+            a = c - w / 2
+            lo.append(a), hi.append(a + w)
+            u = r.random()
+            if u < 0.45:           # on the wall the step points at (upper for positive, lower for negative)
+                v = hi[-1] if hi[-1] > 0 else (lo[-1] if lo[-1] < 0 else Fraction(0))
+                v = hi[-1] if (hi[-1] > 0 and r.random() < 0.5) or lo[-1] >= 0 else lo[-1]
+            elif u < 0.6:          # on the other wall
+                v = lo[-1] if r.random() < 0.5 else hi[-1]
+            else:
+                v = a + w * Fraction(r.randint(1, 15), 16)
+            t.append(v)
+        P = Fraction(r.randint(-512, 512), 32)
+        Ps = [Fraction(r.randint(-512, 512), 32) for _ in range(d)]
+        tp = TablePosterior(t, P, Ps)
+        cc = {"mass": ("scalar", Fraction(1)), "T": r.choice([Fraction(1), Fraction(2), Fraction(1, 2)]),
+              "eps": Fraction(1, 2), "A": [[Fraction(0)] * d for _ in range(d)], "b": [Fraction(0)] * d,
+              "bounds": (lo, hi), "t": t, "r": [Fraction(0)] * d, "n": 1, "start": t}
+        meta = {"kind": "finite_diff_bounded", "lower": [str(v) for v in lo], "upper": [str(v) for v in hi],
+                "t": [str(v) for v in t], "P": str(P), "Ps": [str(v) for v in Ps], "T": str(cc["T"])}
+        try:
+            with warnings.catch_warnings():
+                warnings.simplefilter("ignore")
+                chain, _, _ = make_chain(cc, grad_given=False, posterior=tp)
+                tp.points.clear()
+                G = np.asarray(chain.grad(fl(t)), float)
+            pts = [pt for pt in tp.points if (pt != tp.t).any()]
+        except Exception as e:
+            rep.violation("C07/finite-diff-bounded/exception", f"finite_diff with bounds raised {e!r}", {"case": meta}, True)
+            continue
+        rep.count("finite_diff_bounded/" + ("on-wall" if any(v in (l, u_) for v, l, u_ in zip(t, lo, hi)) else "interior"))
+        rep.case(("fdb", meta["lower"], meta["upper"], meta["t"], meta["P"], meta["Ps"]))
+        if not np.isfinite(G).all() or len(pts) != d:
+            rep.violation("C07/finite-diff-bounded", f"finite_diff with bounds returned {G.tolist()} using {len(pts)} difference points",
+                          {"case": meta}, True)
+            continue
+        # property oracle on the implementation: every difference point inside the box, and the returned
+        # entry is the difference quotient along the step actually taken
+        bad = []
+        for i, pt in enumerate(pts):
+            if not all(float(l) <= x <= float(u_) for x, l, u_ in zip(pt, lo, hi)):
+                bad.append(f"difference point {pt.tolist()} outside the bounds")
+            step = float(pt[i] - float(t[i]))
+            if step != 0.0:
+                want = (float(Ps[i]) - float(P)) / step
+                if abs(G[i] - want) > 1e-6 * (1 + abs(want)):
+                    bad.append(f"gradient entry {i} is {G[i]!r} but the difference quotient along the step taken is {want!r}")
+        if bad:
+            rep.violation("C07/finite-diff-bounded", "; ".join(bad[:2]), {"case": meta}, True)
+        texts.append(f"({C.cq(H_REL)}, {C.cq(H_FLOOR)}, {qv(lo)}, {qv(hi)}, {qv(t)}, {C.cq(P)}, {qv(Ps)}, "
+                     f"{C.clist([qv([F(x) for x in pt]) for pt in pts])}, {qv([F(x) for x in G])})")
+        metas.append(meta)
+    if not texts:
+        return
+    body = ("Definition cases : list (Q * Q * vec * vec * vec * Q * vec * list vec * vec) :=\n " +
+            C.clist(texts, ";\n ") + ".")
+    pfile = C.write_case_file(PROP, "finite_diff_bounded_0", HEADER_B, body, ["failing_b cases 0"])
+    (ok, res, log), = C.run_case_files([pfile], jobs=1)
+    if not ok or 0 not in res:
+        rep.obligation(False)
+        rep.violation("C07/correspondence-run", f"case file {pfile.name} did not evaluate",
+                      {"theorem_or_correspondence": f"correspondence file {pfile.name}", "log": log}, False)
+        return
+    rep.obligation(True)
+    for j in res[0][:3]:
+        rep.violation("C07/finite-diff-bounded/correspondence",
+                      "finite_diff with bounds and Model.FiniteDiffBounded disagree (step, difference point or value)",
+                      {"theorem_or_correspondence": "Model.FiniteDiffBounded.check_fd_b", "case": metas[j]}, False)
+
+
 def run(rep: C.Report, tier: str) -> int:
     thorough = tier == "thorough"
     reported = set()
@@ -950,6 +1056,16 @@ def run(rep: C.Report, tier: str) -> int:
         "O(eps^2) energy error is a theorem only for quadratic potentials; for smooth non-quadratic ones it is the "
         "[R] step-halving test on the implementation",
     ]
+    bounded_fd_part(rep, C.rng_for(PROP, "fd-bounded"), 60 if tier == "quick" else 600)
+    try:
+        _a = C.coq_audit(PROP + "_fdb", ["C07_finite_diff_b_exact_on_quadratics", "C07_finite_diff_b_error_bound",
+                                          "C07_finite_diff_b_step"], "IT.Properties.C07Bounded")
+        rep.obligation(True, 3)
+        rep.coverage["bounded_finite_diff_audit"] = _a
+    except C.ProofFailure as _e:
+        rep.obligation(False, 3)
+        rep.violation("C07/proof", f"proof obligation no longer checks: {_e.what}",
+                      {"theorem_or_correspondence": _e.what, "log": _e.log[-1000:]}, False)
     return rep.finish(
         level="proof",
         checker_cmd="make -C /verif/coq (coqc 8.16.1, full .vo) + coqc on coq/gen/C07/*.v (vm_compute)",
